@@ -306,20 +306,21 @@ fn parse_t(s: &Sexp, in_async: bool) -> Option<T> {
     })
 }
 
-fn collect_disabled(ts: &[T], out: &mut HashSet<u64>) {
+/// The filter script: node id → verdict. Two nodes sharing an id with different verdicts cannot be scripted
+/// (the filter only sees the id): such a case is rejected.
+fn collect_verdicts(ts: &[T], out: &mut std::collections::HashMap<u64, bool>) -> bool {
     for t in ts {
-        match t {
-            T::Span { id, en, children, .. } => {
-                if !*en {
-                    out.insert(*id);
-                }
-                collect_disabled(children, out);
-            }
-            T::Hop(_, c) | T::Exec(_, c) => collect_disabled(c, out),
-            T::Par(bs, _) => bs.iter().for_each(|b| collect_disabled(b, out)),
-            _ => {}
+        let ok = match t {
+            T::Span { id, en, children, .. } => *out.entry(*id).or_insert(*en) == *en && collect_verdicts(children, out),
+            T::Hop(_, c) | T::Exec(_, c) => collect_verdicts(c, out),
+            T::Par(bs, _) => bs.iter().all(|b| collect_verdicts(b, out)),
+            _ => true,
+        };
+        if !ok {
+            return false;
         }
     }
+    true
 }
 
 // ------------------------------------------------------------------ the static call sites
@@ -515,9 +516,11 @@ fn run_c04(line: &str) -> String {
         }
         let incoming = parse_props(&args[0], "incoming")?;
         let tree = parse_list(args[1].as_list()?, false)?;
-        let mut disabled = HashSet::new();
-        collect_disabled(&tree, &mut disabled);
-        *DISABLED.lock().unwrap() = disabled;
+        let mut verdicts = std::collections::HashMap::new();
+        if !collect_verdicts(&tree, &mut verdicts) {
+            return None;
+        }
+        *DISABLED.lock().unwrap() = verdicts.into_iter().filter(|(_, en)| !en).map(|(id, _)| id).collect::<HashSet<u64>>();
         LOG.lock().unwrap().clear();
         let fails: Arc<Mutex<Vec<String>>> = Arc::new(Mutex::new(Vec::new()));
         let fails2 = fails.clone();
